@@ -393,6 +393,50 @@ impl Sim {
 		Ok(())
 	}
 
+	/// Serialize `node`'s manager and monitors as they are now and restart the node from exactly those images
+	/// without telling the new objects anything about the chain. All its connections drop; returns the peers
+	/// it was connected to.
+	pub fn reload_live(&mut self, node: usize) -> Result<Vec<usize>, String> {
+		use lightning::util::ser::Writeable;
+		let mgr_bytes = self.w.nodes[node].node.encode();
+		let (images, ids): (Vec<Vec<u8>>, Vec<(ChannelId, u64)>) = {
+			let cm = &self.w.nodes[node].chain_monitor.chain_monitor;
+			let mut l = cm.list_monitors();
+			l.sort();
+			let mut images = vec![];
+			let mut ids = vec![];
+			for c in l {
+				if let Ok(m) = cm.get_monitor(c) {
+					ids.push((c, m.get_latest_update_id()));
+					images.push(m.encode());
+				}
+			}
+			(images, ids)
+		};
+		let peers: Vec<usize> = (0..self.w.n).filter(|j| *j != node && self.is_connected(node, *j)).collect();
+		for j in peers.iter().cloned() {
+			self.connected.remove(&pair(node, j));
+			for (f, t) in [(node, j), (j, node)] {
+				let q: Vec<Wire> = self.links.get_mut(&(f, t)).unwrap().drain(..).collect();
+				for wire in q {
+					self.rec(SEvent::Dropped { from: f, to: t, wire });
+				}
+			}
+			self.rec(SEvent::Disconnect { a: node, b: j });
+		}
+		let r = self.w.restart_opts(node, &mgr_bytes, &images, &peers, false);
+		let step = hist_tick();
+		self.rec(SEvent::Restart { node, snapshot_step: step, monitor_ids: ids, ok: r.is_ok(), detail: r.clone().err().unwrap_or_default() });
+		if let Err(e) = &r {
+			self.last_restart_error = Some(e.clone());
+			return Err(e.clone());
+		}
+		for j in 0..self.w.n {
+			self.drain(j);
+		}
+		Ok(peers)
+	}
+
 	/// Was the peer's fulfil of an HTLC with this payment hash, delivered to `node`, followed by a
 	/// commitment_signed of the same channel delivered to `node` before step `before`? Only then can `node`'s
 	/// monitor ever have stored the preimage (it arrives with the holder commitment update).
